@@ -4,7 +4,7 @@ import json
 from props.evalcommon import py_exec
 from props.mutcommon import canon_state, check_wf
 from props.passcommon import py_passes, gen_spec, gen_pass_circuit, LEAVES, mk_tr
-from common import circ_from_json, circ_to_json, err_name
+from common import circ_from_json, circ_to_json, err_name, realize
 
 RULE = ('random circuits over all gate types (n-ary gates, L*/R* chains feeding symmetric gates, forced duplicate and '
         'equivalent gates, unary chains, constants, outputs that are inputs/repeated/dead logic) x {each pass via '
@@ -116,6 +116,40 @@ def search(ctx):
         if verdict != 'ok':
             ctx.violation('pass.not_wellformed', f'result of {r["mode"]} is not well formed: {verdict}', input=r)
     reuse(ctx)
+    directed(ctx)
+
+
+def label_collision_circuits():
+    """labels that contain separator characters, arranged so that two different operand tuples read the same once
+    joined by that separator: ('a', 'b', 'c') and ('a,b', 'c'), ('x,y', 'z') and ('x', 'y,z')"""
+    out = []
+    for sep in (',', ' ', '|', ';', ':', '-', '_', '(', "', '"):
+        a, b, c, ab, bc = 'a', 'b', 'c', 'a' + sep + 'b', 'b' + sep + 'c'
+        ins = [a, b, c, ab, bc]
+        for t in ('AND', 'OR', 'XOR', 'NAND', 'NXOR'):
+            gates = [[i, 'INPUT', []] for i in ins] + [['g1', t, [a, b, c]], ['g2', t, [ab, c]], ['g3', t, [a, bc]], ['d', 'XOR', ['g1', 'g2']]]
+            out.append(realize({'gates': gates, 'inputs': ins, 'outputs': ['g1', 'g2', 'g3', 'd'], 'blocks': []}))
+        for t in ('GT', 'LEQ', 'LIFF'):
+            gates = [[i, 'INPUT', []] for i in ins] + [['g1', t, [ab, c]], ['g2', t, [a, bc]], ['d', 'XOR', ['g1', 'g2']]]
+            out.append(realize({'gates': gates, 'inputs': ins, 'outputs': ['d', 'g1'], 'blocks': []}))
+    return out
+
+
+def directed(ctx):
+    """every pass, alone and in the cleanups, on the label-collision circuits: same interface, same truth table"""
+    for j in label_collision_circuits():
+        base_tt = py_exec({'op': 'truth_table', 'c': j})
+        for r in [{'op': 'passes', 'c': j, 'mode': 'transform', 't': t} for t in LEAVES if t != 'RRG+'] + \
+                 [{'op': 'passes', 'c': j, 'mode': 'cleanup', 'heavy': False}, {'op': 'passes', 'c': j, 'mode': 'cleanup', 'heavy': True}]:
+            ctx.case(json.dumps(['collision', j['gates'], r['mode'], r.get('t'), r.get('heavy')]))
+            res = py_passes(r)
+            name = r['mode'] + ':' + json.dumps(r.get('t') or r.get('heavy'))
+            if 'err' in res:
+                ctx.violation('pass.raises', f'{name} raised {res["err"]}', input=r)
+            elif len(res['ok']['outputs']) != len(j['outputs']) or py_exec({'op': 'truth_table', 'c': res['ok']}) != base_tt:
+                ctx.violation('pass.truth_table', f'{name}: truth table changed on a circuit whose labels contain separator characters', input=r)
+            else:
+                ctx.count('label_collision:ok')
 
 
 def relabel(rng, j):
